@@ -71,22 +71,42 @@ partial def ptyStr : Ty → String
 /-- Go's float64 → float32 → float64 on bits (trusted: Lean's runtime uses the same IEEE conversion) -/
 def r32 (b : Nat) : Nat := (Float.ofBits b.toUInt64).toFloat32.toFloat.toBits.toNat
 
-/-- attribute name of a field: the tag `puppet:"name=>'x'"` or the Go name with its first letter in lower case -/
-def attrName (goName : String) (tag : Option String) : Option String :=
-  match tag with
-  | none => match goName.toList with
-    | c :: r => some (String.ofList (c.toLower :: r))
-    | [] => none
-  | some t =>
-    let pre := "puppet:\"name=>'"
-    let suf := "'\""
-    if t.startsWith pre && t.endsWith suf && t.length > pre.length + suf.length then
-      some (String.ofList ((t.toList.drop pre.length).take (t.length - pre.length - suf.length)))
-    else none
+/-- tag `puppet:"name=>'x', value=>LIT"` (either item optional; LIT = integer, 'string', true, false) -/
+def splitOn2 (s sep : String) : List String := (s.splitOn sep)
+
+def litOf (s : String) : Option Val :=
+  if s == "true" then some (.bool true) else if s == "false" then some (.bool false)
+  else if s.startsWith "'" && s.endsWith "'" && s.length ≥ 2 then
+    some (.str (String.ofList ((s.toList.drop 1).take (s.length - 2))))
+  else s.toInt?.map .int
+
+def tagItems (t : String) : Option (Option String × Option Val) :=
+  let pre := "puppet:\""
+  let suf := "\""
+  if !(t.startsWith pre && t.endsWith suf && t.length ≥ pre.length + suf.length) then none else
+  let body := String.ofList ((t.toList.drop pre.length).take (t.length - pre.length - suf.length))
+  (splitOn2 body ", ").foldlM (fun (acc : Option String × Option Val) item =>
+    if item.startsWith "name=>" then
+      match litOf (item.drop 6).toString with
+      | some (.str n) => some (some n, acc.2)
+      | _ => none
+    else if item.startsWith "value=>" then
+      (litOf (item.drop 7).toString).map fun d => (acc.1, some d)
+    else none) (none, none)
+
+def lowerFirst (goName : String) : Option String :=
+  match goName.toList with
+  | c :: r => some (String.ofList (c.toLower :: r))
+  | [] => none
 
 def fieldOf : Sexp → Option Field
-  | .list [.atom n, t] => do let ty ← tyOf t; let a ← attrName n none; pure ⟨a, ty⟩
-  | .list [.atom n, t, tag] => do let ty ← tyOf t; let tg ← tag.str?; let a ← attrName n (some tg); pure ⟨a, ty⟩
+  | .list [.atom n, t] => do let ty ← tyOf t; let a ← lowerFirst n; pure { name := a, ty := ty }
+  | .list [.atom n, t, tag] => do
+      let ty ← tyOf t
+      let tg ← tag.str?
+      let (nm, d) ← tagItems tg
+      let a ← (match nm with | some x => some x | none => lowerFirst n)
+      pure { name := a, ty := ty, dflt := d }
   | _ => none
 
 def zipVals : List Field → List Sexp → Option (List (Field × GoVal))
@@ -98,6 +118,12 @@ def variantStr (name : String) (orig : List GoVal) : Option (List GoVal) → Str
   | some back => s!" | {name}=ok back={paren ("st" :: back.map goStr)} eq={boolStr ((back.map goStr) == (orig.map goStr))}"
   | none => s!" | {name}=reported PCORE_ILLEGAL_ARGUMENTS"
 
+def isHsh : Val → Bool | .hsh _ => true | _ => false
+
+def singleHash : List Val → Bool
+  | [w] => isHsh w
+  | _ => false
+
 def exec : List Sexp → String
   | [.atom "obj", .list (.atom "struct" :: fsx), .list (.atom "st" :: vsx)] =>
     match fsx.mapM fieldOf with
@@ -108,17 +134,20 @@ def exec : List Sexp → String
       | some fvs =>
         if fs.isEmpty || !(fvs.all fun fv => flatField fv.1 && hasType fv.1.ty fv.2) then "bad-op" else
         let ih := initHash fvs
-        let attrs := attrOrder fvs
+        let full := fullHash fvs
+        let attrs := attrOrder (·.1) fvs
+        let afs := attrs.map (·.1)
         let orig := fvs.map (·.2)
-        let posSkip := match attrs with
-          | [fv] => (match fieldVal fv with | .hsh _ => true | _ => false)
-          | _ => false
-        let namedSkip := match attrs with
-          | fv :: _ => inst (typeOf fv.1.ty) (.hsh ih)
+        let pos := attrs.map fieldVal
+        let trim := trimDefaults afs pos
+        let ambiguous (h : List (Val × Val)) := match attrs with
+          | fv :: _ => inst (typeOf fv.1.ty) (.hsh h)
           | [] => false
         valStr (.hsh ih)
-          ++ (if posSkip then "" else variantStr "pos" orig (newPos r32 fvs))
-          ++ (if namedSkip then "" else variantStr "named" orig (newNamed r32 fs ih))
+          ++ (if singleHash pos then "" else variantStr "pos" orig (newPos r32 fs pos))
+          ++ (if trim.length < pos.length && !singleHash trim then variantStr "postrim" orig (newPos r32 fs trim) else "")
+          ++ (if ambiguous ih then "" else variantStr "named" orig (newNamed r32 fs ih))
+          ++ (if ih.length != full.length && !ambiguous full then variantStr "full" orig (newNamed r32 fs full) else "")
   | [.atom "refl", t, v] =>
     match tyOf t with
     | none => "bad-op"
